@@ -166,3 +166,49 @@ Theorem isimip_window_unit_change_ratls a b em im thr so sh sf yo yh yf obs obs'
 Proof.
   intros Ha Hem. apply (isimip_window_unit_change a b Ha ratls ratls_good); [apply ratls_fit_unit_change; exact Ha | intros l [H _]; exact H | exact Hem].
 Qed.
+
+(* ---------- through the day-window loop, all three series in the other unit ---------- *)
+Definition PR2 (a b : Q) (p p' : Q * Z) : Prop := snd p' = snd p /\ fst p' == a * fst p + b.
+
+Lemma PR2_fst a b l l' : Forall2 (PR2 a b) l l' -> ARL a b (map fst l) (map fst l').
+Proof. induction 1 as [|p p' l l' [_ Hv] _ IH]; cbn [map]; constructor; [exact Hv | exact IH]. Qed.
+Lemma PR2_snd a b l l' : Forall2 (PR2 a b) l l' -> map snd l' = map snd l.
+Proof. induction 1 as [|p p' l l' [Hy _] _ IH]; cbn [map]; [reflexivity | rewrite Hy, IH; reflexivity]. Qed.
+
+Section LoopUnits.
+Variables a b : Q.
+Hypothesis Ha : 0 < a.
+Context {P : Type} (D : dist P).
+Variable good : list Q -> Prop.
+Hypothesis Hfit : fit_unit_change D a b good.
+Hypothesis good_ne : forall l, good l -> l <> [].
+Variables (em : ecdf_method) (im : iecdf_method) (thr : Q).
+Hypothesis Hem : em = step_function \/ em = linear_interpolation.
+Variable sigf : list Q -> list Z -> bool.
+(** the significance decision does not depend on the unit *)
+Hypothesis sig_unit : forall x x' y, ARL a b x x' -> sigf x' y = sigf x y.
+
+Lemma W_isimip_unit_rel o o' h h' f f' : o <> [] -> h <> [] -> window_ok good em im sigf o h f ->
+  Forall2 (PR2 a b) o o' -> Forall2 (PR2 a b) h h' -> Forall2 (PR2 a b) f f' ->
+  ARL a b (W_isimip D em im thr sigf o h f) (W_isimip D em im thr sigf o' h' f').
+Proof.
+  intros Noo Nhh (Nf & No & Nh & Gf & Gof) Ho Hh Hf. unfold W_isimip.
+  rewrite (PR2_snd a b o o' Ho), (PR2_snd a b h h' Hh), (PR2_snd a b f f' Hf).
+  rewrite (sig_unit _ _ _ (PR2_fst a b o o' Ho)), (sig_unit _ _ _ (PR2_fst a b h h' Hh)), (sig_unit _ _ _ (PR2_fst a b f f' Hf)).
+  apply (isimip_window_unit_change a b Ha D good Hfit good_ne em im thr Hem); try assumption;
+    try (intro E; apply map_eq_nil in E; contradiction); try (rewrite !map_length; reflexivity); apply PR2_fst; assumption.
+Qed.
+
+Theorem isimip_unit_change_through_windows L S dobs dhist dfut (obs obs' hist hist' fut fut' : list (Q * Z)) :
+  (forall ci, In ci (days_use S dfut) ->
+     NP.take obs (days_indices_in_window L dobs (fst ci)) <> [] /\ NP.take hist (days_indices_in_window L dhist (fst ci)) <> [] /\
+     window_ok good em im sigf (NP.take obs (days_indices_in_window L dobs (fst ci))) (NP.take hist (days_indices_in_window L dhist (fst ci)))
+               (NP.take fut (days_indices_in_window L dfut (fst ci)))) ->
+  Forall2 (PR2 a b) obs obs' -> Forall2 (PR2 a b) hist hist' -> Forall2 (PR2 a b) fut fut' ->
+  orel (Forall2 (orel (AR a b))) (driver_rw Q L S dobs dhist dfut obs hist fut (W_isimip D em im thr sigf))
+                                 (driver_rw Q L S dobs dhist dfut obs' hist' fut' (W_isimip D em im thr sigf)).
+Proof.
+  intros Hok Ho Hh Hf. unfold driver_rw. apply driver_rel. intros ci Hci. destruct (Hok ci Hci) as (N1 & N2 & Wok).
+  apply W_isimip_unit_rel; try assumption; apply take_rel; assumption.
+Qed.
+End LoopUnits.
